@@ -39,15 +39,46 @@ def _setup(ctx, arrays):
     return w, lam, [m1, m2, m3, m1]
 
 
+def _explicit(ctx, w, mats, rho, ws, names, label, site, csite):
+    """wavelengths as an explicit numpy vector [lam1, lam2] (arrays are objects here: in-place updates and aliasing are
+    modelled): the calculator must equal neutron_sld at each wavelength separately, on every call"""
+    I = w.I
+    lams = sp.symbols("lam1 lam2", positive=True)
+    calc = I.call(I.global_name("nsf", "neutron_composite_sld"), [list(mats)], {"wavelength": Vec(lams)})
+    tot = {}
+    for wi, mi in zip(ws, mats):
+        for a, c in I.getattr(mi, "atoms").items():
+            tot[a] = tot.get(a, 0) + wi * c
+    total = I.call(I.global_name("formulas", "formula"), [tot], {})
+    M = I.getattr(total, "mass")
+    direct = [I.call(I.global_name("nsf", "neutron_sld"), [total], {"density": rho, "wavelength": l}) for l in lams]
+    for call_no in (1, 2, 3):
+        wv = Vec(ws)
+        got = I.call(calc, [wv], {"density": rho})
+        ctx.check(list(wv.items) == list(ws), "R1", f"the caller's weight vector is left untouched (call {call_no}) [{label}]",
+                  f"weights after the call: {_s(wv.items)}", csite)
+        for k, g, dj in zip(names, got, zip(*direct)):
+            gj = list(g.items) if isinstance(g, Vec) else [g, g]
+            if len(gj) != 2:
+                ctx.fail("R1", f"{k}: one value per wavelength (call {call_no}) [{label}]", f"returned {_s(g)}", csite)
+                continue
+            for j in (0, 1):
+                eq(ctx, "R1", f"{k}: calculator(w, rho)[{j}] = neutron_sld(sum w_i*material_i, rho, wavelength[{j}]) (call {call_no}) [{label}]",
+                   gj[j], dj[j], csite, nonzero=[rho * M])
+
+
 def run(ctx):
     rho = sp.Symbol("rho", positive=True)
     ws = sp.symbols("w1:5", positive=True)
     site = fsite(ctx, "nsf.neutron_composite_sld")
     csite = fsite(ctx, "nsf.neutron_composite_sld._compute")
     names = ("sld_re", "sld_im", "sld_inc")
-    for label, arrays in (("scalar wavelength", False), ("array wavelength", True)):
-        w, lam, mats = _setup(ctx, arrays)
+    for label, arrays in (("scalar wavelength", False), ("array wavelength", True), ("length-2 wavelength vector", None)):
+        w, lam, mats = _setup(ctx, bool(arrays))
         I = w.I
+        if arrays is None:
+            _explicit(ctx, w, mats, rho, ws, names, label, site, csite)
+            continue
         calc = I.call(I.global_name("nsf", "neutron_composite_sld"), [list(mats)], {"wavelength": lam})
         r = raises(lambda: I.call(calc, [Vec(ws)], {"density": rho}))
         if r is not None:
@@ -73,6 +104,11 @@ def run(ctx):
         for k, g, d in zip(names, got, direct):
             eq(ctx, "R1", f"{k}: calculator(w, rho) = neutron_sld(sum w_i*material_i, rho) [{label}]", g, d, csite,
                nonzero=[rho * M])
+        # the calculator keeps no state between calls: the same question gets the same answer
+        again = I.call(calc, [Vec(ws)], {"density": rho})
+        for k, g, g2 in zip(names, got, again):
+            eq(ctx, "R1", f"{k}: a second call with the same weights and density returns the same value [{label}]", g2, g, csite,
+               nonzero=[rho * M])
         # guard: zero density and zero total weight give zeros
         z = I.call(calc, [Vec(ws)], {"density": sp.Integer(0)})
         ctx.check(tuple(z) == (0, 0, 0), "R1", f"zero density gives zeros [{label}]", f"returned {_s(z)}", csite)
@@ -92,7 +128,7 @@ def run(ctx):
             eq(ctx, "R1", f"{k}: zero weights drop their material [{label}]", g, d, csite,
                nonzero=[rho * I.getattr(tz, "mass")])
         ctx.unit("functions_inlined", len(set(I.calls)))
-    ctx.floor("R1", 20)
+    ctx.floor("R1", 47)
     ctx.floor("R2", 2)
     # _sum_piece is the per-compound loop of neutron_scattering (same four sums)
     w, lam, mats = _setup(ctx, False)
